@@ -37,3 +37,31 @@ for rel, fns in ex.items():
         if h != lines:
             print(f"{rel}::{q}: {len(h)}/{len(lines)} missed {cover.ranges(lines - h)}")
 print(f"TOTAL {got}/{tot} lines of function bodies executed by the correspondence of some property")
+
+# ---- branches: union over the evidence files --------------------------------
+seen = {}
+for f in sorted(glob.glob(os.path.join(os.path.dirname(__file__), "..", "evidence", "C*.json"))):
+    br = json.load(open(f))["coverage"].get("impl_branch_coverage")
+    if not br:
+        continue
+    for rel, q, src, dst in br["raw"]:
+        seen.setdefault((rel, q, src), set()).add(dst)
+sites = cover.branch_sites()
+one_way, never, both = {}, {}, 0
+for rel, fn_sites in sites.items():
+    for (q, src), (line, dests) in fn_sites.items():
+        got = seen.get((rel, q, src), set())
+        if len(got) >= 2:
+            both += 1
+        elif got:
+            one_way.setdefault(f"{rel}::{q}", set()).add(line)
+        else:
+            never.setdefault(f"{rel}::{q}", set()).add(line)
+print()
+print(f"BRANCHES: {both} conditional jumps taken both ways; one way only:")
+for k in sorted(one_way):
+    print(f"  {k}: lines {cover.ranges({x for x in one_way[k] if x})}")
+print("never reached (functions reached at all are listed; others omitted):")
+for k in sorted(never):
+    if k in one_way or any(k == kk for kk in one_way):
+        print(f"  {k}: lines {cover.ranges({x for x in never[k] if x})}")
